@@ -6,6 +6,8 @@ C07.b  records: TransitionT/TaskT copy memberwise (no user-declared copy operati
        payloadSet and placement-copy the `payload` parameter into storage; payload() returns the storage iff payloadSet
 C07.c  [flow] whole-object copy chain request -> pending -> current -> previous (rules/flow_rules.py)
 C07.d  [order] updatePlan forwards the same task's destination and payload
+C07.e  [cmp] a payload-carrying request is never dropped unseen in favour of an accepted transition that differs from it
+       (shares C02.f)
 Not decided: equality of payload bytes for every value (memberwise copy of a byte array is the language's).
 """
 from lint import facts, records, ir
@@ -159,8 +161,12 @@ def run(run):
         for v in facts.variants(run.tier):
             F = facts.load('w_core', c, v)
             plan_payload_forwarding(run, F)
+            from rules import c02
+            c02.drop_condition(run, F)
+            run.relabel('C02.f', 'C07.e')
             facts.drop(F)
     run.floor('C07.c', 40)
+    run.floor('C07.e', 8)
     run.explanation = (
         'Type-level layout facts (sizeof / offsetof / alignof as computed by clang\'s record layout) for the payload '
         'storage of TransitionT<P> and TaskT<P> over 12 payload types with sizes 1..64 and alignments 1..64, the '
